@@ -40,7 +40,7 @@ func vfC09(w *vfWorld) {
 	w.sample = cs
 	cfg := vfDefaultCfg()
 	cfg.Store = vfPick(t, "c09.store", []string{"cookie", "redis"})
-	cfg.Provider = vfPick(t, "c09.provider", []string{"oidc", "oidc", "plain"})
+	cfg.Provider = vfPick(t, "c09.provider", []string{"oidc", "oidc", "plain", "keycloak-oidc"})
 	// (lifetimes beyond 400 days are legal: what the browser does with such a Max-Age is its business, the statement says
 	// the attribute equals the configured lifetime)
 	E := vfPick(t, "c09.E", []time.Duration{30 * time.Minute, 2 * time.Hour, 12 * time.Hour, 90 * time.Second, 30 * time.Minute, 2 * time.Hour, 9700 * time.Hour, 20000 * time.Hour})
@@ -57,6 +57,24 @@ func vfC09(w *vfWorld) {
 	idp.IDTokenTTL, idp.AccessTTL = 100*time.Hour, 100*time.Hour
 	if E > 50*time.Hour {
 		idp.IDTokenTTL, idp.AccessTTL = 3*E, 3*E
+	}
+	oidcFamily := cfg.Provider == "oidc" || cfg.Provider == "keycloak-oidc"
+	if cfg.Provider == "keycloak-oidc" {
+		// this flavour reads roles from a JWT access token (RS256: deterministic signature)
+		idp.Mint = func(m *vfMintCtx) {
+			if opaque, ok := m.Resp["access_token"].(string); ok {
+				c := idp.BaseClaims(m.User, "")
+				c["jti"], c["realm_access"] = opaque, map[string]interface{}{"roles": []string{"user"}}
+				jwt := idp.SignJWT(c, vfSignOpt{Key: 2})
+				idp.atGrant[jwt], idp.atGen[jwt] = m.Grant, m.Grant.Gen
+				m.Resp["access_token"] = jwt
+			}
+		}
+	}
+	// a provider that issues no refresh token: the session can be re-validated but never renewed
+	noRT := oidcFamily && t.Prob("c09.no-refresh-token", 250)
+	if noRT {
+		idp.RefreshSupported = false
 	}
 	refreshFails := t.Prob("c09.refreshfails", 150)
 	// sessions that must be split over several cookies: every part carries the lifetime
@@ -158,13 +176,14 @@ func vfC09(w *vfWorld) {
 		// 1. the browser's own request (may refresh and so reset the age)
 		rep := reps[t.Choice("c09.rep", 2)]
 		hadCookie := b.Get(cfg.CookieName) != nil || b.Get(cfg.CookieName+"_0") != nil
+		reqMark := idp.mark()
 		r := b.GET(rep, "/app/own")
 		if hadCookie {
 			age := now - lastIssue
 			switch {
 			case age >= E+time.Second && served(r):
 				w.violate("C09", "served-past-lifetime", cfg.Store+"/jar", "the browser's credential stamped %v ago was served (lifetime %v)", age, E)
-			case age <= E-2*time.Second && -age <= 4*time.Minute+58*time.Second && !served(r) && !refreshFails && cfg.Provider == "oidc":
+			case age <= E-2*time.Second && -age <= 4*time.Minute+58*time.Second && !served(r) && !refreshFails && oidcFamily:
 				w.violate("C09", "rejected-within-lifetime", cfg.Store, "the browser's credential stamped %v ago was not served (lifetime %v, status %d)", age, E, r.Status)
 			}
 		}
@@ -173,6 +192,19 @@ func vfC09(w *vfWorld) {
 		if len(creds) > n0 {
 			lastIssue = creds[len(creds)-1].Stamped
 			w.nontriv = true
+			// "issued or last refreshed": for an OIDC-family provider a credential with a new stamp exists only because the
+			// identity provider renewed the session in this very request
+			if oidcFamily {
+				renewed := false
+				for _, c := range idp.since(reqMark, "") {
+					if c.Endpoint == "token:refresh" && strings.HasPrefix(c.Outcome, "200") {
+						renewed = true
+					}
+				}
+				if !renewed {
+					w.violate("C09", "re-stamped-without-refresh", cfg.Provider, "the request at +%v was handed a credential with a new issue time although no refresh succeeded at the identity provider in that request (refresh token issued: %v)", p, !noRT)
+				}
+			}
 		}
 		// 2. replay of every credential ever issued, whatever the browser would do with Max-Age
 		for _, c := range append([]*vfC09Cred(nil), creds...) {
